@@ -355,3 +355,9 @@ def check_C17(tier):
     if keep:
         chk.sample({"base": [M.render_cond(*c) for c in keep[0]["sc"]["base"]], "events": [{k: v for k, v in e.items() if k != "ranks"} for e in keep[0]["events"]][:8]})
     return chk.finish()
+
+
+def check_C19(tier):
+    from drivers import revision
+
+    return revision.run(Check("C19", tier), tier)
